@@ -527,7 +527,21 @@ long syscall(long n, ...)
 }
 
 // ---- simulated clock ---------------------------------------------------------------------
+static uint64_t clock_advance_step();
+static __thread uint64_t tl_last_reading;  // simulated threads are fresh OS threads: starts at 0 in every run
 static uint64_t clock_advance()
+{
+  // two cores can read the clock in the same instant: with ties enabled a thread may get the value another thread got last,
+  // as long as its own readings still increase
+  if (g.clock_ties && g.clock_ns > tl_last_reading) {
+    tl_last_reading = g.clock_ns;
+    return g.clock_ns;
+  }
+  uint64_t c = clock_advance_step();
+  tl_last_reading = c;
+  return c;
+}
+static uint64_t clock_advance_step()
 {
   uint64_t step = 1000;  // >= 1 microsecond per reading
   if (g.clock_jumps && !g.fair) {
